@@ -184,6 +184,40 @@ Definition bad_of {A} (f : A -> nat) (cases : list A) : list (nat * nat) :=
   filter (fun p => negb (Nat.eqb (snd p) 0)) (index_from 0 (map f cases)).
 Definition bad_pty := bad_of check_pty.
 
+(** The same judgement with its parts kept apart, for the harness (which re-runs a case whose
+    ONLY discrepancy is real-time: a wall-clock measurement can be disturbed by machine load,
+    a value cannot):  1 = values differ from the model, 2 = values contradict the
+    specification, 4 = the number of timeouts waited differs from the model's, 8 = more than
+    one timeout per round although the terminal is inside the hypothesis (blocking),
+    16 = the case is inside the property's hypothesis and has a specified answer.
+    [check_pty p = 0] iff [pty_bits p] has none of the bits 1, 2, 4, 8. *)
+Definition pty_bits (p : pcase) : nat :=
+  let (m, st) := run_model p in
+  let nto := now st / TIMEOUT in
+  let ok_values :=
+      obs_eq m (pc_obs p) &&
+      beq (map snd (pend st)) (pc_left p) &&
+      leq beq (written st) (map fst (pc_rounds p)) &&
+      match pc_op p with
+      | OpRawCsi | OpRawC => true
+      | _ => forallb (round_consistent (pc_profile p)) (pc_rounds p)
+      end in
+  let ok_time := (pc_nto_min p <=? nto) && (nto <=? pc_nto_max p) in
+  let in_hyp :=
+      wf_profile (pc_profile p) && forallb (round_in_hypothesis (pc_profile p)) (pc_rounds p) in
+  let applies := match exp_obs p with Some _ => in_hyp | None => false end in
+  let ok_spec_values :=
+      match exp_obs p with
+      | Some e => if in_hyp then spec_obs_eq e (pc_obs p) && is_nil (pc_left p) else true
+      | None => true
+      end in
+  let ok_spec_time :=
+      if applies then pc_nto_min p <=? Z.of_nat (length (pc_rounds p)) else true in
+  ((if ok_values then 0 else 1) + (if ok_spec_values then 0 else 2) +
+   (if ok_time then 0 else 4) + (if ok_spec_time then 0 else 8) +
+   (if applies then 16 else 0))%nat.
+Definition report_pty (cases : list pcase) : list (nat * nat) := index_from 0 (map pty_bits cases).
+
 (** ** fast cases: parsing and decisions of the same functions, on canned responses *)
 
 Record fcase := {
@@ -257,6 +291,14 @@ Definition check_fast (f : fcase) : nat :=
       end in
   ((if ok_model then 0 else 1) + (if ok_spec then 0 else 2))%nat.
 Definition bad_fast := bad_of check_fast.
+(** [check_fast] + 16 when the case is inside the hypothesis and has a specified answer *)
+Definition fast_bits (f : fcase) : nat :=
+  let p := {| pc_op := fc_op f; pc_cfg := fc_cfg f; pc_cache := fc_cache f; pc_profile := fc_profile f;
+              pc_raw_request := []; pc_rounds := []; pc_obs := fc_obs f; pc_left := [];
+              pc_nto_min := 0; pc_nto_max := 0 |} in
+  (check_fast f +
+   match exp_obs p with Some _ => if fast_in_hyp f then 16 else 0 | None => 0 end)%nat.
+Definition report_fast (cases : list fcase) : list (nat * nat) := index_from 0 (map fast_bits cases).
 
 (** ** x_parse_color on its own *)
 Record xcase := { xc_spec : list byte; xc_obs : option rgb }.
@@ -284,3 +326,7 @@ Definition check_x (x : xcase) : nat :=
       end in
   ((if ok_model then 0 else 1) + (if ok_spec then 0 else 2))%nat.
 Definition bad_x := bad_of check_x.
+(** [check_x] + 16 when the spec is in XParseColor's grammar *)
+Definition x_bits (x : xcase) : nat :=
+  (check_x x + match grammar_rgb (xc_spec x) with Some _ => 16 | None => 0 end)%nat.
+Definition report_x (cases : list xcase) : list (nat * nat) := index_from 0 (map x_bits cases).
